@@ -154,8 +154,15 @@ int main(int argc, char ** argv) {
             if (i == 0) continue;     // the first point (N0) is only just saturated: compare 4*N0 with 16*N0
             flat_cmp++;
             long d = (long)ms[j].second.peak - (long)ms[i].second.peak;
-            if (d > (long)c.C + 65536)
-                hc::viol(std::string(c.writing ? "write" : "read") + ":peak-heap-grows-with-N", "peak(N=" + std::to_string(ms[j].first) + ") - peak(N=" + std::to_string(ms[i].first) + ") = " + std::to_string(d) + " > C + 64 KiB; " + cv.str());
+            // Two runs of correct code can differ by as much as the whole legitimate dynamic range: from a pipeline that never got full to
+            // one in which everything the property allows is in use at the same moment - the held stream data (bound of the sampler; a held
+            // container keeps its compressed copy as well, at level 0 as large as the inflated one), the container in the worker's hands
+            // (compressed + inflated copy) and a full object queue plus the object being built. Growth with N is linear and exceeds this
+            // within 12*N0 containers (N0*C is at least twice the saturation volume).
+            long qcap = c.shipped ? 10 : (long)c.Q;
+            long range = 2 * (std::max(B0, S0) + 2 * (long)c.C) + 2 * (long)c.C + (qcap + 1) * S0 + 65536;
+            if (d > range)
+                hc::viol(std::string(c.writing ? "write" : "read") + ":peak-heap-grows-with-N", "peak(N=" + std::to_string(ms[j].first) + ") - peak(N=" + std::to_string(ms[i].first) + ") = " + std::to_string(d) + " > legitimate dynamic range " + std::to_string(range) + "; " + cv.str());
         }
         if (sample.empty() || ci % 7 == 0) sample = cv.str();
         wd::disarm();
